@@ -47,13 +47,15 @@ def gen(rng, positive_only):
     for i in range(nb):
         pin = [8, 12, 7][i]
         df = rng.choice([None, 880, 220.5])
-        if df and rng.random() < 0.3:
+        if not positive_only and rng.random() < 0.25:
+            df = rng.choice([0, -5])   # a default frequency <= 0: beep() without a frequency must stay silent until a tone has sounded
+        if df and df > 0 and rng.random() < 0.3:
             lines.append(f"df{i} = {df}")  # the default frequency named by a user variable
             lines.append(f"bz{i} = Buzzer({pin}, default_frequency=df{i})")
             df_text[i] = f"df{i}"
         else:
-            lines.append(f"bz{i} = Buzzer({pin}" + (f", default_frequency={df}" if df else "") + ")")
-        buzzers.append((f"bz{i}", pin, float(df) if df else 440.0))
+            lines.append(f"bz{i} = Buzzer({pin}" + (f", default_frequency={df}" if df is not None else "") + ")")
+        buzzers.append((f"bz{i}", pin, float(df) if df is not None else 440.0))
     calls = []
     nvar = [0]
     body = []
@@ -167,7 +169,7 @@ def f32(x):
 def monitor(events, calls, buzzers, in_loop):
     """Replay the event log against the protocol state machine. Returns list of (key, message)."""
     problems = []
-    state = {b[1]: {"sounding": False, "cur": 0.0, "last": f32(b[2])} for b in buzzers.values()}
+    state = {b[1]: {"sounding": False, "cur": 0.0, "last": f32(b[2]), "exact": True} for b in buzzers.values()}
     # split events into segments per marker
     segs = []
     cur = []
@@ -204,7 +206,9 @@ def monitor(events, calls, buzzers, in_loop):
         if "_rebind_from" in c:
             # the device keeps one set of state variables per buzzer name across a re-declaration
             state[pin]["last"] = state[c["_rebind_from"]]["last"]
+            state[pin]["exact"] = state[c["_rebind_from"]]["exact"]
             c["_last"] = state[pin]["last"]
+            c["_last_exact"] = state[pin]["exact"]
         st = state[pin]
         ev = [(t, kind, f) for (t, kind, f) in seg if (kind in ("TONE", "NOTONE") and int(f[0]) == pin) or kind == "DELAY"]
         tones = [int(f[1]) for (t, kind, f) in ev if kind == "TONE"]
@@ -212,6 +216,7 @@ def monitor(events, calls, buzzers, in_loop):
         # replay sounding state
         for t, kind, f in ev:
             if kind == "TONE":
+                st["exact"] = False
                 st["sounding"] = True
                 st["cur"] = float(f[1])
                 st["last"] = float(f[1])
@@ -251,9 +256,9 @@ def monitor(events, calls, buzzers, in_loop):
             n = max(0, int(c["times"]))
             if c["freq"] is None:
                 freq_val = None  # last frequency: checked through the tone value recorded below
-            if c["freq"] is not None and float(c["freq"]) <= 0:
+            if (c["freq"] is not None and float(c["freq"]) <= 0) or (c["freq"] is None and c.get("_last_exact") and float(c["_last"]) <= 0):
                 if tones:
-                    problems.append(("tone-for-nonpositive", f"{label}: tone {tones} started for frequency <= 0"))
+                    problems.append(("tone-for-nonpositive", f"{label}: tone {tones} started for frequency <= 0 (last/default frequency {c.get('_last')})"))
             else:
                 if len(tones) != n:
                     problems.append(("beep-count", f"{label}: sounded {len(tones)} times, expected {n}"))
@@ -330,6 +335,7 @@ def monitor(events, calls, buzzers, in_loop):
         for c2 in calls[k + 1:]:
             if c2["pin"] == pin:
                 c2["_last"] = st["last"]
+                c2["_last_exact"] = st["exact"]
                 break
     return problems, seen
 
@@ -344,6 +350,7 @@ def run_case(case):
         if c["pin"] not in first:
             first[c["pin"]] = True
             c["_last"] = f32([b for b in buzzers.values() if b[1] == c["pin"]][0][2])
+            c["_last_exact"] = True   # the declared default frequency itself (later values are read back from rounded tone events)
     t = engine.transpile(script)
     out = {"script": script, "transpile": t["status"], "exc": t.get("exc"), "calls": len(calls)}
     if t["status"] != "ok":
@@ -361,6 +368,86 @@ def run_case(case):
     out["calls_judged"] = seen
     out["tone_events"] = sum(1 for e in f["events"] if e[1] in ("TONE", "NOTONE"))
     out["sample"] = [list(e) for e in f["events"] if e[1] in ("TONE", "NOTONE", "DELAY")][:10]
+    return out
+
+
+def loop_scenario(rng):
+    """A buzzer call inside an ordinary loop whose arguments are variables that the loop body changes AFTER the call:
+    every iteration must sound what the variable holds at that moment. -> (script, expected tones, expected delays)"""
+    L = HDR.splitlines() + ["bz = Buzzer(8)"]
+    kind = rng.choice(["freq-while", "freq-for", "dur-for", "beep-on", "tempo-for", "sweep-start"])
+    n = rng.randint(2, 4)
+    tones, delays = [], []
+    if kind in ("freq-while", "freq-for"):
+        # (float from the start: an int variable that later receives a float is the known re-typing finding)
+        f0 = rng.choice([300.0, 262.0, 440.5, 1000.0])
+        df = rng.choice([100.0, 55.0, 12.5])
+        dur = rng.choice([20, 5, 50])
+        L += [f"fq = {f0}", f"dur = {dur}"]
+        if kind == "freq-while":
+            L += [f"while fq < {f0 + n * df - 0.01}:", "    bz.play_tone(fq, dur)", f"    fq = fq + {df}"]
+        else:
+            L += [f"for k in range({n}):", "    bz.play_tone(fq, duration_ms=dur)", f"    fq += {df}"]
+        for i in range(n):
+            tones.append(tone_of(f32(f0 + i * df)))
+            delays.append(dur)
+    elif kind == "dur-for":
+        d0, dd = rng.choice([(10, 15), (5, 5), (40, 1)])
+        L += [f"d = {d0}", f"for k in range({n}):", "    bz.play_tone(440, d)", f"    d = d + {dd}"]
+        for i in range(n):
+            tones.append(440)
+            delays.append(d0 + i * dd)
+    elif kind == "beep-on":
+        on0, don = rng.choice([(5, 10), (20, 1)])
+        L += [f"on = {on0}", "fq = 500", f"for k in range({n}):", "    bz.beep(fq, on_ms=on, off_ms=3, times=2)", f"    on = on + {don}", "    fq = fq + 50"]
+        for i in range(n):
+            tones += [500 + 50 * i] * 2
+            delays += [on0 + i * don, 3, on0 + i * don]
+    elif kind == "tempo-for":
+        tune = rng.choice(["success", "error", "notify"])
+        tp0 = rng.choice([120, 90])
+        L += [f"tp = {tp0}", f"for k in range({n}):", f'    bz.melody("{tune}", tempo=tp)', "    tp = tp * 2"]
+        for i in range(n):
+            beat_ms = f32(60000.0) / f32(tp0 * 2 ** i)
+            tones += [tone_of(fq) for fq, _ in SCORES[tune][1] if fq > 0]
+            delays += [d for d in (int(f32(f32(b) * f32(beat_ms))) for _, b in SCORES[tune][1]) if d > 0]
+    else:
+        s0, ds = rng.choice([(200, 100), (1000, -200)])
+        L += [f"st = {s0}", f"for k in range({n}):", "    bz.sweep(st, st, duration_ms=0, steps=1)", f"    st = st + {ds}"]
+        for i in range(n):
+            tones.append(s0 + i * ds)
+    L.append('mon.write("@end")')
+    return "\n".join(L) + "\n", tones, delays, kind
+
+
+def run_loop_case(case):
+    idx, sd = case
+    rng = rng_for(PROP, sd, "loop", idx)
+    script, want_tones, want_delays, kind = loop_scenario(rng)
+    t = engine.transpile(script)
+    out = {"script": script, "transpile": t["status"], "exc": t.get("exc"), "kind": kind, "problems": []}
+    if t["status"] != "ok":
+        return out
+    with fw.Scratch() as wd:
+        f = engine.firmware(t["cpp"], wd, passes=1)
+    out["cpp"] = t["cpp"]
+    out["fw_status"] = f["status"]
+    out["diag"] = engine.first_diag_line(f.get("diag", ""))
+    if f["status"] != "ok":
+        return out
+    tones, delays = [], []
+    for tt, k, fl in f["events"]:
+        if k == "SER" and fl and fl[0] == "@end":
+            break
+        if k == "TONE" and int(fl[0]) == 8:
+            tones.append(int(fl[1]))
+        elif k == "DELAY":
+            delays.append(int(fl[0]))
+    out["tones"] = len(tones)
+    if tones != want_tones:
+        out["problems"].append(("loop-tones", f"{kind}: tones {tones}, the variables held {want_tones} when the calls ran"))
+    if want_delays and (len(delays) != len(want_delays) or any(abs(a - b) > 1 for a, b in zip(delays, want_delays))):
+        out["problems"].append(("loop-delays", f"{kind}: delays {delays}, expected {want_delays}"))
     return out
 
 
@@ -407,6 +494,22 @@ def main() -> int:
                 rep.violation(msg, w, key=key)
         if len(rep.samples) < 3 and res["tone_events"] > 4:
             rep.sample({"script": res["script"][-700:], "events": res["sample"]})
+    for case, st, res in run_cases(run_loop_case, [(i, sd) for i in range(48 if t == "quick" else 400)]):
+        if st != "ok":
+            rep.inconclusive_because(f"loop case {case} failed: {res[-300:]}")
+            continue
+        w = {"script.py": res["script"], "sketch.cpp": res.get("cpp") or ""}
+        if res["transpile"] != "ok":
+            rep.count("loop-scenario:" + res["transpile"])
+            continue
+        if res["fw_status"] != "ok":
+            rep.violation(f"buzzer firmware (loop scenario): {res['fw_status']} {res.get('diag')}", w, key="fw-loop:" + res["fw_status"])
+            continue
+        rep.case("loop:" + str(hash(res["script"])), res["tones"] > 0)
+        rep.count("loop_scenarios_judged")
+        rep.count("loop_scenario:" + res["kind"])
+        for key, msg in res["problems"]:
+            rep.violation(msg, w, key=key)
     if rep.counters.get("buzzer_calls_judged", 0) == 0:
         rep.inconclusive_because("no buzzer call was judged")
     rep.rule = ("random histories of 3-10 buzzer calls over 1-2 buzzers (play_tone with/without duration, stop, beep with explicit/default "
